@@ -28,7 +28,9 @@ func (g *JSONDoc) ws() {
 	}
 }
 
-var strFrags = []string{"a", "key", "x y", "é", "中", "😀", `\"`, `\\`, `\/`, `\b`, `\f`, `\n`, `\r`, `\t`, `A`, `é`, `😀`, `\u0000`, `\\\"`, `\\\\`, "'", "{", "}", "[", "]", ",", ":", " ", "0", "true", "//", "/*"}
+var strFrags = []string{"a", "key", "x y", "é", "中", "😀", `\"`, `\\`, `\/`, `\b`, `\f`, `\n`, `\r`, `\t`, `A`, `é`, `😀`, `\u0000`, `\\\"`, `\\\\`, "'", "{", "}", "[", "]", ",", ":", " ", "0", "true", "//", "/*",
+	// raw bytes that need no escape in a JSON string: DEL, C1 controls, line separators, NBSP, BOM, U+FFFD, a 4-byte rune
+	"\x7f", "\u0080", "\u009f", "\u2028", "\u2029", "\u00a0", "\ufeff", "\ufffd", "\U0010ffff", `\u007f`, `\u001f`, `\ud83d\ude00`}
 
 func (g *JSONDoc) str() string {
 	n := rapid.IntRange(0, 5).Draw(g.t, "strn")
